@@ -22,7 +22,7 @@ RULE = (
 )
 TIERS = {"quick": {"shards": 8, "n": 16, "budget_s": 230}, "thorough": {"shards": 16, "n": 600, "budget_s": 2700}}
 FLOOR = {"quick": 40, "thorough": 2000}
-REQUIRED_LABELS = {"quick": ["dry-run", "real-run", "out:populated", "out:absent", "out:empty", "recursive", "blacklist", "sqlalchemy-submodule"], "thorough": []}
+REQUIRED_LABELS = {"quick": ["module-with-unexported-helper", "dry-run", "real-run", "out:populated", "out:absent", "out:empty", "recursive", "blacklist", "sqlalchemy-submodule"], "thorough": []}
 ASSUMPTIONS = [
     "generated trees for black/whitelist cases do not re-export across the list boundary; the clause is checked at the granularity the tool implements (package FQN)",
     "P31: emit kinds pydantic / json_schema / sqlalchemy raise TypeError; for them only 'stays inside the output dir / source untouched / dry-run writes nothing' is checked, which holds whether or not the call raises",
@@ -58,11 +58,15 @@ def package_tree(draw):
         return out
 
     path = ""
+    helpers = {}
     for lv in range(levels):
         for i in range(draw(st.integers(1, 2))):
-            mods["%smod_%d%d" % (path, lv, i)] = cls_names(draw(st.integers(1, 2)))
+            rel = "%smod_%d%d" % (path, lv, i)
+            mods[rel] = cls_names(draw(st.integers(1, 2)))
+            if draw(st.integers(0, 2)) == 0:
+                helpers[rel] = cls_names(1)  # defined in the module but NOT exported through __all__ / __init__
         path += "sub%d/" % lv
-    return {"modules": mods, "irs": irs, "levels": levels}
+    return {"modules": mods, "helpers": helpers, "irs": irs, "levels": levels}
 
 
 @st.composite
@@ -108,7 +112,7 @@ def write_tree(root, pkg, tree):
             exported += classes
             with open(os.path.join(base, d, m + ".py"), "w") as f:
                 parts = ["from typing import *", ""]
-                for c in classes:
+                for c in classes + tree.get("helpers", {}).get((d + "/" if d else "") + m, []):
                     with core.quiet():
                         src, _ = hops.emit_src("class", gen_ir.to_ir(tree["irs"][c], name=c), class_name=c)
                     parts += [src, ""]
@@ -159,6 +163,8 @@ def one(r, case):
         r.label(case["list"])
     if case["sqlsub"]:
         r.label("sqlalchemy-submodule")
+    if case["tree"].get("helpers"):
+        r.label("module-with-unexported-helper")
     _counter[0] += 1
     root = tempfile.mkdtemp(prefix="c20_", dir="/dev/shm" if os.path.isdir("/dev/shm") else None)
     pkg = "vq%d_%d" % (os.getpid(), _counter[0])
